@@ -141,3 +141,27 @@ def nodes_keyed_by_name(graph):
 
 def gated_name(graph, n):
     return n in graph.controlled_by and bool(graph.controlled_by[n])
+
+
+def distinct_names(seq):
+    return all(seq[i] != seq[j] for i in range(len(seq)) for j in range(len(seq)) if i != j)
+
+
+def valid_decision(node, decision):
+    """A routing decision a RouteNode may store: None, or (multi-target) a list of declared targets,
+    or (single-target) one declared target (END counts when declared)."""
+    return decision is None or (
+        (isinstance(decision, list) and all(t in node.targets for t in decision))
+        if node.multi_target
+        else (not isinstance(decision, list) and decision in node.targets)
+    )
+
+
+def targets_are_names(node, END):
+    """Object-model fact (gate constructors normalise targets): every target is a node name or END."""
+    return all(isinstance(t, str) or t is END for t in node.targets)
+
+
+def gate_shape(node, END):
+    """Object-model facts about gates: no data outputs (outputs are emit names only), targets are names or END."""
+    return len(node.data_outputs) == 0 and targets_are_names(node, END) and distinct_names(node.outputs)
